@@ -238,7 +238,7 @@ int main() {
             } else if (!cur) out = "NO-FIELD";
             else out = cur->line(t);
         } catch (...) { out = "EXCEPTION"; }
-        std::cout << out << "\n";
+        std::cout << out << std::endl;      // flushed: a crash or a hang is attributed to the next input line
     }
     std::cout.flush();
     return 0;
